@@ -102,7 +102,7 @@ fn event(r: &mut Rng, pool: &mut Vec<W>) -> (&'static str, Vec<u64>, Vec<u64>) {
             tf_in(r, -300, 300)
         }
     };
-    let kind = r.below(16);
+    let kind = r.below(17);
     let (name, ins, res): (&'static str, Vec<u64>, Result<Vec<W>, String>) = match kind {
         0..=5 => {
             let i = r.below(N_UN);
@@ -161,6 +161,24 @@ fn event(r: &mut Rng, pool: &mut Vec<W>) -> (&'static str, Vec<u64>, Vec<u64>) {
                     2 => TwoFloat::new_mul(x, y),
                     _ => TwoFloat::new_div(x, y),
                 })]
+            }))
+        }
+        16 => {
+            // Iterator::sum over 0..400 items (TwoFloat or f64 items)
+            let len = if r.coin() { r.range(0, 12) } else { r.range(100, 400) } as usize;
+            let items: Vec<W> = (0..len).map(|_| tf_in(r, -40, 40)).collect();
+            let mut ins = vec![len as u64];
+            for x in items.iter().take(4) {
+                ins.push(hx(x.0));
+                ins.push(hx(x.1));
+            }
+            let byf = r.coin();
+            ("sum", ins, guard(|| {
+                if byf {
+                    vec![w(items.iter().map(|x| x.0).sum::<TwoFloat>())]
+                } else {
+                    vec![w(items.iter().map(|x| t(*x)).sum::<TwoFloat>())]
+                }
             }))
         }
         _ => {
